@@ -39,6 +39,15 @@ static const char MULTIPLE_SCALAR_MESSAGE[49] = "Attempted to create multiple va
 static int dup_ustrings(UChar ***dest, UChar *src[]);
 static int cif_loop_get_names_internal(cif_loop_tp *loop, UChar ***item_names, int normalize);
 
+/*
+ * Prepares the statement for setting a loop's category, in a function of its own because PREPARE_STMT() returns from
+ * the function in which it appears, and the caller has resources to release in that event
+ */
+static int prepare_set_category_stmt(cif_tp *cif) {
+    PREPARE_STMT(cif, set_loop_category, SET_CATEGORY_SQL);
+    return CIF_OK;
+}
+
 static int dup_ustrings(UChar ***dest, UChar *src[]) {
     if (src == NULL) {
         *dest = NULL;
@@ -219,7 +228,10 @@ int cif_loop_set_category(cif_loop_tp *loop, const UChar *category) {
              * Create any needed prepared statements, or prepare the existing one(s)
              * for re-use, exiting this function with an error on failure.
              */
-            PREPARE_STMT(cif, set_loop_category, SET_CATEGORY_SQL);
+            if (prepare_set_category_stmt(cif) != CIF_OK) {
+                free(category_temp);
+                return CIF_ERROR;
+            }
 
             /* set the category */
             if ((sqlite3_bind_int64(cif->set_loop_category_stmt, 2, container->id) == SQLITE_OK)
